@@ -200,7 +200,13 @@ def apply_ops(sc, rdd, ops):
         elif op == 'glom':
             rdd = rdd.glom()
         elif op == 'union':
-            rdd = rdd.union(sc.parallelize([F.from_json(x) for x in o['xs']], o['n']))
+            other = sc.parallelize([F.from_json(x) for x in o['xs']], o['n'])
+            if o.get('via') == 'ctx-list':
+                rdd = sc.union([rdd, other])
+            elif o.get('via') == 'ctx-gen':
+                rdd = sc.union(r for r in (rdd, other))      # "Iterable of RDDs": a one-shot iterable too
+            else:
+                rdd = rdd.union(other)
         elif op == 'zip':
             rdd = rdd.zip(sc.parallelize([F.from_json(x) for x in o['xs']], o['n']))
         elif op == 'zipWithIndex':
@@ -281,7 +287,11 @@ def norm_model(a, m):
 def same(a, impl, model):
     name = a['name']
     if isinstance(model, dict) and 'exc' in model:
-        if model['exc'] == 'empty':       # first/min/max/mean of an empty dataset: outside the property
+        if model['exc'] == 'empty':       # min/max/mean of an empty dataset: outside the property
+            if name == 'first':
+                # first() of an empty dataset raises - and not StopIteration, which a caller that happens to run inside a
+                # generator or map() would take for the end of ITS input (as for reduce: ValueError)
+                return isinstance(impl, dict) and impl.get('exc') not in (None, 'StopIteration')
             return True if name in ('min', 'max', 'mean') else (isinstance(impl, dict) and 'exc' in impl)
         return impl == model
     if name == 'mean':
@@ -353,6 +363,18 @@ class C01(Prop):
                         for repart in ('repartition', 'coalesce'):
                             out.append({'xs': list(range(ln)), 'n': n, 'ops': [pre, {'op': repart, 'm': m}, {'op': 'glom'}],
                                         'action': {'name': 'collect'}})
+        # Context.union over a list and over a one-shot iterable of datasets (contents only: it re-slices)
+        for via in ('ctx-list', 'ctx-gen'):
+            for n in (1, 2, 3):
+                out.append({'xs': [1, 2, 3], 'n': n, 'ops': [{'op': 'union', 'xs': [4, 5], 'n': 2, 'via': via}], 'action': {'name': 'collect'}})
+                out.append({'xs': [], 'n': n, 'ops': [{'op': 'union', 'xs': [4, 5], 'n': 2, 'via': via}], 'action': {'name': 'count'}})
+        for n in (1, 2, 3):
+            out.append({'xs': [], 'n': n, 'ops': [], 'action': {'name': 'first'}})
+            out.append({'xs': [1, 3], 'n': n, 'ops': [{'op': 'filter', 'f': 'even'}], 'action': {'name': 'first'}})
+        # a partition function right after glom (a step of the library, not a user's partition function): it gets an iterator
+        for pf in ('twicep', 'nextlen'):
+            for n in (1, 2, 3):
+                out.append({'xs': [1, 2, 3, 4], 'n': n, 'ops': [{'op': 'glom'}, {'op': 'mapPartitions', 'f': pf}], 'action': {'name': 'collect'}})
         return out
 
     def nontrivial(self, case):
